@@ -10,6 +10,7 @@ kinds:
   present     : `pattern` must match at least once in each of `files`
   static_storage : the complete list of objects with static storage duration (file scope objects and
                 function-local statics) in `files` must equal `expected`
+  absent_in_region : inside `function` of files[0], after the first match of `after`, `pattern` must not occur
   order       : inside function `function` of `files[0]`, the regexes in `sequence`
                 must all match, in that order
 """
@@ -135,6 +136,23 @@ def run_fact(f, repo):
             res['files_scanned'] = len(files)
             if sorted(f['expected']) != sorted(found):
                 res['status'] = 'fail'
+        elif f['kind'] == 'absent_in_region':
+            # inside `function` of files[0], after the first match of `after`, `pattern` must not occur
+            src = open(files[0], errors='replace').read()
+            bb = inj.blank_comments_strings(src)
+            bo, bc = inj.find_function(bb, f['function'])
+            text = src if f.get('keep_pp') else bb
+            body = text[bo:bc]
+            m0 = re.search(f['after'], body)
+            if not m0:
+                res['status'] = 'fail'
+                res['found'] = ['anchor not found: ' + f['after']]
+            else:
+                region = bb[bo:bc][m0.end():]
+                hits = [m.group(0) for m in re.finditer(f['pattern'], region)]
+                res['found'] = hits[:10]
+                if hits:
+                    res['status'] = 'fail'
         elif f['kind'] == 'order':
             src = open(files[0], errors='replace').read()
             b = inj.blank_comments_strings(src) if not f.get('keep_pp') else src
